@@ -10,11 +10,13 @@ pub mod c07;
 pub mod c08;
 pub mod c09;
 pub mod c09b;
+pub mod c09c;
 pub mod c10;
 pub mod c11;
 pub mod c12;
 pub mod c13;
 pub mod c14;
+pub mod c14b;
 pub mod c15;
 pub mod c16;
 pub mod c17;
